@@ -2,7 +2,10 @@
 """Development helper: prints the markdown table of seeded changes (seeded/*/meta.json) for DESIGN.md."""
 import json,glob,os,re
 rows=[]
-for d in sorted(glob.glob('/verif/seeded/*/'), key=lambda p:(re.sub(r'\d+$','',os.path.basename(p[:-1]).split('-')[0]), os.path.basename(p[:-1]))):
+root=os.path.dirname(os.path.dirname(os.path.abspath(__file__)))
+try: hist=json.load(open(root+'/docs/seed-history.json'))
+except Exception: hist={}
+for d in sorted(glob.glob(os.path.dirname(os.path.dirname(os.path.abspath(__file__)))+'/seeded/*/'), key=lambda p:(re.sub(r'\d+$','',os.path.basename(p[:-1]).split('-')[0]), os.path.basename(p[:-1]))):
     try: m=json.load(open(d+'meta.json'))
     except Exception: continue
     sid=os.path.basename(d[:-1])
@@ -14,7 +17,9 @@ for d in sorted(glob.glob('/verif/seeded/*/'), key=lambda p:(re.sub(r'\d+$','',o
     tier='quick' if c.get('check_quick_exit')==1 else ('thorough' if c.get('check_thorough_exit')==1 else '-')
     line=(c.get('check_quick_line') or '')+(c.get('check_thorough_line') or '')
     how='concrete failing input' if ('VIOLATION' in line and 'no-failing-input-found' not in line) else ('no-failing-input-found' if 'VIOLATION' in line else 'NOT DETECTED')
-    rows.append(f"| {sid} | {m.get('property','')} | {title} | {needs} | {tier} | {how} |")
-print("| seed | property | change | needs to manifest | caught in tier | verdict |")
-print("|------|----------|--------|-------------------|----------------|---------|")
+    h=hist.get(sid,'')
+    if h.startswith('as '): h=hist.get(h[3:],h)
+    rows.append(f"| {sid} | {m.get('property','')} | {title} | {needs} | {tier} | {how} | {h.replace('|','/')} |")
+print("| seed | property | change | needs to manifest | caught in tier | verdict | first missed? what was strengthened |")
+print("|------|----------|--------|-------------------|----------------|---------|------|")
 print("\n".join(rows))
